@@ -153,7 +153,12 @@ class Token(str):
         comment delimieters), false otherwise.
         """
         for pair in self.grammar.comments:
-            if self.startswith(pair[0]) and self.endswith(pair[1]):
+            if (
+                len(self) >= len(pair[0]) + len(pair[1])
+                and self.startswith(pair[0])
+                and self.endswith(pair[1])
+            ):
+                # The delimiters may not overlap: "/*/" is an open comment.
                 return True
         return False
 
